@@ -204,13 +204,34 @@ func toType(t jType) jsonapi.Type {
 	return typ
 }
 
+// projByName: the schema at hand was declared under keys of its author's choosing ("hand" build): a
+// type is then read as the library reads it, field by field under the field's own name (a name that
+// occurs twice shows as such)
+var projByName bool
+
 func projType(t jsonapi.Type) jType {
 	jt := jType{Name: atn(t.Name), Attrs: attrMap{}, Rels: relMap{}}
-	for k, a := range t.Attrs {
-		jt.Attrs[afn(k)] = jAttr{Name: afn(a.Name), K: kindName(a.Type), Null: a.Nullable}
+	for _, k := range sortedKeys(t.Attrs) {
+		a := t.Attrs[k]
+		key := afn(k)
+		if projByName {
+			key = afn(a.Name)
+			if _, twice := jt.Attrs[key]; twice {
+				key += "#twice"
+			}
+		}
+		jt.Attrs[key] = jAttr{Name: afn(a.Name), K: kindName(a.Type), Null: a.Nullable}
 	}
-	for k, r := range t.Rels {
-		jt.Rels[afn(k)] = fromRel(r)
+	for _, k := range sortedKeys(t.Rels) {
+		r := t.Rels[k]
+		key := afn(k)
+		if projByName {
+			key = afn(r.FromName)
+			if _, twice := jt.Rels[key]; twice {
+				key += "#twice"
+			}
+		}
+		jt.Rels[key] = fromRel(r)
 	}
 	return jt
 }
@@ -260,6 +281,27 @@ func buildSchema(c sCase) *jsonapi.Schema {
 	if c.Build == "lit" {
 		for _, t := range c.State {
 			s.Types = append(s.Types, toType(t))
+		}
+		return s
+	}
+	if c.Build == "hand" {
+		// the same types declared by hand, every field under a key that is not its name
+		for _, t := range c.State {
+			typ := toType(t)
+			ha, hr := map[string]jsonapi.Attr{}, map[string]jsonapi.Rel{}
+			for i, k := range sortedKeys(typ.Attrs) {
+				ha[fmt.Sprintf("key%d", i)] = typ.Attrs[k]
+			}
+			for i, k := range sortedKeys(typ.Rels) {
+				hr[fmt.Sprintf("key%d", i)] = typ.Rels[k]
+			}
+			if typ.Attrs != nil {
+				typ.Attrs = ha
+			}
+			if typ.Rels != nil {
+				typ.Rels = hr
+			}
+			s.Types = append(s.Types, typ)
 		}
 		return s
 	}
@@ -327,6 +369,8 @@ func runSchemaCase(c sCase, probes []string) sEvent {
 	nameStyle = c.Names
 	defer func() { nameStyle = 0 }()
 	setupPanicked = false
+	projByName = c.Build == "hand"
+	defer func() { projByName = false }()
 	s := buildSchema(c)
 	ev := sEvent{Pre: projSchema(s), Op: c.Op}
 	if c.Kind == "check" {
@@ -483,6 +527,9 @@ func schemaMain(args []string) {
 			builds := []string{"hist"}
 			if *lit && !twoByTwo {
 				builds = append(builds, "lit")
+			}
+			if si%5 == 0 && !twoByTwo {
+				builds = append(builds, "hand")
 			}
 			styles := []int{si % 2}
 			if twoByTwo {
